@@ -432,7 +432,7 @@ class Ctx(object):
         return self.tier == 'quick'
 
     def n(self, quick, thorough):
-        if self.quick and getattr(self, 'escalate', False):
+        if self.quick and getattr(self, 'escalate', False) and isinstance(quick, (int, float)) and isinstance(thorough, (int, float)):
             # the source-derived obligations could not be attempted on this tree (translator could not read the source): the
             # correspondence carries the tie alone and is run deeper (geometric mean of the two tiers' sizes)
             return max(quick, int(round((quick * thorough) ** 0.5)))
